@@ -65,6 +65,7 @@ type Dataset struct {
 	markedForDeletion    bool
 	PublicNamespaces     []string `json:"publicNamespaces"`
 	fullSyncID           string
+	fullSyncLeased       bool // the running sync was started with a lease (HTTP); job-driven syncs are never leased
 	ProxyConfig          *ProxyDatasetConfig   `json:"proxyConfig"`
 	VirtualDatasetConfig *VirtualDatasetConfig `json:"virtualDatasetConfig"`
 }
@@ -90,6 +91,7 @@ func (ds *Dataset) StartFullSync() error {
 		ds.fullSyncID = ""
 	}
 
+	ds.fullSyncLeased = false
 	ds.fullSyncStarted = true
 	ds.fullSyncSeen = make(map[uint64]int)
 
@@ -101,6 +103,7 @@ func (ds *Dataset) StartFullSyncWithLease(fullSyncID string) error {
 		return err
 	}
 	ds.fullSyncID = fullSyncID
+	ds.fullSyncLeased = true
 
 	return ds.RefreshFullSyncLease(fullSyncID)
 }
@@ -108,6 +111,10 @@ func (ds *Dataset) StartFullSyncWithLease(fullSyncID string) error {
 func (ds *Dataset) RefreshFullSyncLease(fullSyncID string) error {
 	if ds.fullSyncStarted {
 		if fullSyncID == ds.fullSyncID {
+			if !ds.fullSyncLeased {
+				// job-driven sync: an id-less write is part of it, but never arms a lease
+				return nil
+			}
 			// cancel previous lease
 			if ds.fullSyncLease != nil && ds.fullSyncLease.cancel != nil {
 				ds.fullSyncLease.cancel()
@@ -130,6 +137,7 @@ func (ds *Dataset) RefreshFullSyncLease(fullSyncID string) error {
 					ds.fullSyncSeen = make(map[uint64]int)
 					ds.fullSyncID = ""
 					ds.fullSyncLease = nil
+					ds.fullSyncLeased = false
 				} // else this lease is not the current one any more
 			}()
 
@@ -164,6 +172,7 @@ func (ds *Dataset) CompleteFullSync(ctx context.Context) error {
 		ds.fullSyncSeen = make(map[uint64]int) // release sync state
 		ds.fullSyncLease = nil                 // unset lease
 		ds.fullSyncID = ""                     // unset id
+		ds.fullSyncLeased = false
 	}()
 
 	// check all seen and mark deleted
